@@ -13,7 +13,7 @@ ASSUMPTIONS = [
     "greedy tails are generated so that the data ends on the top-level alignment boundary (documented exception excluded)",
     "decoding into a message that already holds another value is executed and counted but is not a verdict",
 ]
-REQUIRED_FEATURES = ['counter/4', 'flag/4', 'disc/4', 'enum/4', 'sizer/1', 'bytes', 'pad', 'greedy', 'opt-absent',
+REQUIRED_FEATURES = ['counter/4', 'flag/4', 'disc/4', 'enum/4', 'sizer/1', 'bytes', 'pad', 'greedy', 'opt-absent', 'count-65536',
                      'opt-present', 'limited-empty', 'limited-full']
 
 
@@ -143,9 +143,33 @@ def _errclass(e):
     return 'other'
 
 
+def check_guard_boundary(acc, wd):
+    """Element counts at the decoder's array guard: 65535 and 65536 elements are the largest the codec reads back."""
+    M = S.Member
+    sch = S.Schema([S.Struct('GB1', [M('x', 'u8', S.DYNAMIC)]),
+                    S.Struct('GB2', [M('n', 'u32'), M('a', 'u16', S.EXT, sizer='n'), M('b', 'byte', S.EXT, sizer='n'),
+                                     M('t', 'u8')]),
+                    S.Struct('GBE', [M('a', 'u8'), M('b', 'u8')]),
+                    S.Struct('GB3', [M('n', 'i64'), M('e', 'GBE', S.EXT, sizer='n')])])
+    try:
+        mod, nodes = pyrt.compile_python(sch.to_prophy(), wd)
+    except pyrt.CompileFailed as e:
+        acc.prereq({'stage': e.stage, 'error': str(e)[:300]})
+        return
+    w = W.Wire(sch)
+    for n in (65535, 65536):
+        acc.feature('count-%d' % n)
+        check_case(acc, sch, w, mod, 'GB1', ['guard-boundary'], 'count-%d' % n, {'x': [7] * n}, '<')
+        check_case(acc, sch, w, mod, 'GB2', ['guard-boundary'], 'count-%d' % n,
+                   {'a': [0x1234] * n, 'b': b'\x5a' * n, 't': 9}, '>')
+        check_case(acc, sch, w, mod, 'GB3', ['guard-boundary'], 'count-%d' % n, {'e': [{'a': 1, 'b': 2}] * n}, '<')
+
+
 def run_shard(spec):
     acc = Acc()
     with C.Workdir() as wd:
+        if spec.get('seed', 1) % 1000 == 0 and spec['kind'] != 'replay':
+            check_guard_boundary(acc, wd)
         for sch, names, tagmap, mod, nodes, rng in C.iter_py_schemas(spec, acc, wd):
             w = W.Wire(sch)
             for n in names:
